@@ -184,7 +184,7 @@ CLAIMED = {
             'bounded exhaustive enumeration of (clause, premises) tuples for every veriT rule, and of the complete 1-deviation neighbourhood of every step of stored solver-produced proofs, on the real rule evaluators; finite-model and independent-encoding oracles',
             'Layer A: for every registered veriT rule, every clause of <=2 literals with every premise list of <=1 formulas from a pool '
             '(plain and under a hypothesis), every clause of <=3 literals and every premise pair from a reduced pool, is given to '
-            'macro.eval. Layer B: every step of the stored solver proofs of the tier (corpus/verit: 151 proofs produced by veriT 2021.06 '
+            'macro.eval; every rule also gets every equation of an arithmetic pool (right and wrong simplifications at int and real). Layer B: every step of the stored solver proofs of the tier (corpus/verit: 151 proofs produced by veriT 2021.06 '
             'on the repository\'s examples, 76 rules) and each of its near misses (literal dropped / negated / swapped / inner component '
             'dropped / sides swapped, premise dropped / negated / shortened / swapped, coefficient perturbed, clause size changed). Every '
             'accepted tuple is judged: premises (with their hypotheses) must entail the returned clause in all finite models with '
